@@ -279,9 +279,7 @@ static int open_mode(const char* path, int mode, opened_t* o, int* code) {
         ro.use_mmap = true;
         o->r = carquet_reader_open(path, &ro, &err);
     } else if (mode == MODE_FILEH) {
-        o->fh = fopen(path, "rb");
-        if (!o->fh) { *code = -1; return -1; }
-        o->r = carquet_reader_open_file(o->fh, &ro, &err);
+        *code = -3; return -1;   /* carquet_reader_open_file is declared in carquet.h but not implemented */
     } else {
         FILE* f = fopen(path, "rb");
         if (!f) { *code = -1; return -1; }
